@@ -53,7 +53,7 @@ def tie_args(ctx, args, case):
 
 def run(ctx, factor):
     g, rep = ctx.g, ctx.report
-    rep.rule = ("random rule/input pairs x every combination of -s/-b, --all-matches, --return_only_address, --macros (0-2 files): "
+    rep.rule = ("random rule/input pairs x every combination of -s/-b, --all-matches, --return_only_address, --macros (0-2 files), with and without the logging options (--debug, --info, ...): "
                 "`python -m jasm.main` run in a scratch directory, its `Matched address:` lines (in order) and RESULT line compared "
                 "with the API's list / boolean for the same files and options; failing operations (undefined macro, missing "
                 "input, non-object binary) must exit non-zero; the required-argument rules (-p; exactly one of -s/-b) checked")
@@ -107,8 +107,10 @@ def run(ctx, factor):
             args.append("--return_only_address")
         if mpaths:
             args += ["--macros"] + mpaths
-        if g.chance(0.3):
-            g.r.shuffle(args) if False else None
+        # the logging options do not change what is computed, nor what the terminal reports about it
+        for opt, pr in (("--debug", 0.35), ("--info", 0.15), ("--enable_logging_to_terminal", 0.1), ("--enable_logging_to_file", 0.1)):
+            if g.chance(pr):
+                args.insert(0 if g.chance(0.5) else len(args), opt)
         c = cli(ctx, args, cwd)
         tie_args(ctx, args, {"argv": args})
 
